@@ -47,7 +47,7 @@ def spans(src):
 
 
 def corpus():
-    files = sorted(glob.glob(os.path.join(build.repo(), 'test', '*.c'))) + sorted(glob.glob(os.path.join(build.VERIF, 'corpus', 'c19', '*.c')))
+    files = sorted(glob.glob(os.path.join(build.repo(), 'test', '*.c'))) + sorted(glob.glob(os.path.join(build.VERIF, 'corpus', 'c19', '*.c'))) + sorted(glob.glob(os.path.join(build.VERIF, 'corpus', 'c01', '*.c')))
     out = []
     for f in files:
         base = os.path.basename(f)[:-2]
@@ -61,7 +61,10 @@ def mutants(name, src, quick, small):
     """Yield (label, bytes) for every single edit of `src` in this tier."""
     sp = spans(src)
     subst = QUICK_SUBST if quick else SUBST
+    stride = 5 if quick and len(src) > 1500 else 1   # quick tier: every 5th token of the large files
     for i, (a, b) in enumerate(sp):
+        if i % stride:
+            continue
         yield 'trunc@tok%d' % i, src[:a]
         yield 'del@tok%d' % i, src[:a] + src[b:]
         yield 'dup@tok%d' % i, src[:b] + b' ' + src[a:b] + src[b:]
@@ -325,6 +328,22 @@ def main(chk):
     for name, src, targ, pp in (quickfiles if chk.quick else files):
         for label, data in mutants(name, src, chk.quick, name in small):
             push((name, label, data, targ, pp), 'D1/' + label.split('@')[0])
+    # D2: all pairs of single-token edits for the ten smallest corpus files (thorough)
+    if not chk.quick:
+        for name, src, targ, pp in files[:10]:
+            sp = spans(src)
+            edits = []
+            for i, (a, b) in enumerate(sp):
+                edits.append((a, b, b''))
+                edits.append((a, b, src[a:b] + b' ' + src[a:b]))
+                for s_ in ('(', '{', ';', 'int', 'x', '0', '*'):
+                    edits.append((a, b, s_.encode()))
+            for x in range(len(edits)):
+                for y in range(x + 1, len(edits)):
+                    (a1, b1, r1), (a2, b2, r2) = edits[x], edits[y]
+                    if b1 > a2:
+                        continue
+                    push((name, 'D2@%d,%d' % (x, y), src[:a1] + r1 + src[b1:a2] + r2 + src[b2:], targ, pp), 'D2')
     # generated
     for label, data in generated(chk.quick):
         push(('gen', label, data, 'x86_64-sysv', False), 'G')
